@@ -3,8 +3,8 @@
    is not proved is stated as [C09_full] (Definition) and named below.                           *)
 From Coq Require Import ZArith Reals List.
 From FF Require Import Base.Ops Inst.RInst Base.RAlg Base.FMat Model.Numeric Model.Decay Model.Cumulant
-     Model.Tie.C09 Proofs.Trapz Proofs.TraceId Proofs.PauliOnb Proofs.CumulantAlg Proofs.CumulantPauli Proofs.CumulantLabel.
-From FF Require Model.Consts Inst.Param Corr.Agree Corr.Obs Corr.ObsC08.
+     Model.Tie.C09 Proofs.Trapz Proofs.TraceId Proofs.PauliOnb Proofs.CumulantAlg Proofs.CumulantPauli Proofs.CumulantLabel Proofs.CumulantCCP.
+From FF Require Model.Consts Inst.Param Inst.EnclosureC08 Corr.Agree Corr.Obs Corr.ObsC08.
 Import ListNotations.
 Local Open Scope R_scope.
 
@@ -106,6 +106,23 @@ Theorem C09_K1_first_col_zero : forall d n (Cb : nat -> fmat), basis_complete d 
 Proof. exact K1_first_col_zero. Qed.
 Print Assumptions C09_K1_first_col_zero.
 
+(* K_cCP: complete Hermitian basis, positive-semidefinite decay amplitudes (x^T Gamma x >= 0): the Choi form of the
+   first-order cumulant function -- entries [choi_entry] as computed by liouville_to_choi -- is non-negative on every
+   V orthogonal to the maximally entangled state (sum_a V_aa = 0); this is Q choi Q >= 0 of liouville_is_cCP without
+   the index flattening.  Value: sum_kl Gamma_kl Re(p_k conj p_l), p_k = sum_ac conj(V_ac)(C_k)_ca. *)
+Theorem C09_K_cCP : forall d (basis : list MatR),
+  basis_herm d (length basis) (fun k => toF (nthm basis k)) ->
+  basis_complete d (length basis) (fun k => toF (nthm basis k)) ->
+  forall (G D : RMr) (V : nat -> nat -> Cx),
+  rm_psd_form (length basis) G -> csumn' d (fun a => V a a) = 0c ->
+  let K := cumulant_general RO (length basis) (four_traces_arr RO d (pair_products RO d basis) (length basis)) false G D in
+  0 <= fst (csumn' d (fun a => csumn' d (fun b => csumn' d (fun c => csumn' d (fun e =>
+         cmul' (cmul' (cconj' (V a c)) (choi_entry RO (length basis) K basis a c b e)) (V b e)))))).
+Proof. exact model_K_cCP. Qed.
+Print Assumptions C09_K_cCP.
+Example C09_psd_form_satisfiable : rm_psd_form 4 [[0;0;0;0];[0;1;0;0];[0;0;1;0];[0;0;0;1]].
+Proof. exact psd_form_example. Qed.
+
 (* ---------- not proved: stated ---------- *)
 (* Choi matrix of a Liouville matrix E in the basis is positive semidefinite *)
 Definition choi_psd (d n : nat) (basis : list MatR) (E : RMr) : Prop :=
@@ -126,7 +143,6 @@ Definition C09_full : Prop :=
   forall (G D : RMr) (second : bool) (E : RMr), rm_psd n G ->
   is_exp n (cumulant_general RO n (four_traces_arr RO d (pair_products RO d basis) n) second G D) E ->
   choi_psd d n basis E.
-(* PARTIAL: C09_full ("exp K is completely positive", Lindblad's theorem, and the Pade approximant of
-   scipy.linalg.expm) and the conditional complete positivity of K itself are NOT proved here; the
-   package's own maps are sampled (Choi eigenvalues of the error transfer matrix, liouville_is_cCP of K,
+(* PARTIAL: C09_full ("exp K is completely positive", Lindblad's theorem: from C09_K_cCP, and the Pade
+   approximant of scipy.linalg.expm) is NOT proved here; the package's own maps are sampled (Choi eigenvalues of the error transfer matrix, liouville_is_cCP of K,
    expm against the Taylor polynomial on intervals) in tools/ffv/props/c09.py.                       *)
